@@ -9,6 +9,7 @@ import FontVerif.Drv.C01HandColr
 import FontVerif.Drv.C01HandBitmap
 import FontVerif.Drv.C01HandText
 import FontVerif.Drv.C01HandAat
+import FontVerif.Drv.C01HandStack
 
 def main : IO Unit := FontVerif.driverMain [FontVerif.Drv.C01.handle, FontVerif.Drv.C01Iter.handle, FontVerif.Drv.C01Hand.handle,
   FontVerif.Drv.C01HandGlyf.handle,
@@ -17,4 +18,5 @@ def main : IO Unit := FontVerif.driverMain [FontVerif.Drv.C01.handle, FontVerif.
   FontVerif.Drv.C01HandColr.handle,
   FontVerif.Drv.C01HandBitmap.handle,
   FontVerif.Drv.C01HandText.handle,
-  FontVerif.Drv.C01HandAat.handle]
+  FontVerif.Drv.C01HandAat.handle,
+  FontVerif.Drv.C01HandStack.handle]
